@@ -18,6 +18,16 @@ CLAIMED = {
             'are listed in DESIGN.md section 10.'),
 }
 
+CLAIMED['C20'] = (
+    'Bloom filter: insert sets exactly the 8 Parquet-spec bits and check is true iff those bits are set (all hashes, all '
+    'blocks) hence no false negatives for any insertion history and monotone under merge; block selection equals the '
+    'Parquet multiply-shift and is in range for every hash and block count; insert/check/merge/create/from_data/write stay '
+    'inside the filter; merge is the byte-wise union (loop contract, ghost index); typed inserts hash the little-endian value '
+    'bytes with seed 0. XXH64 == specification XXH64: bounded in input length (each length 0..129 separately), all data and seeds.',
+    'Trusted: CBMC + z3/cvc5, spec functions specs/sbbf_spec.h and specs/xxh64_spec.h (written from the format documents), '
+    'malloc/calloc model. XXH64 is bounded in length (level bounded, not counted as proved). The serialise/reload and '
+    'insertion-history statements follow from these per-function contracts by induction on the history; that induction is on paper (DESIGN 5 C20).')
+
 NA = {
     'C01': 'whole-file write->read history over ~6000 lines, stdio, zlib, zstd: no per-function contract carries it; decidable pieces are claimed under C11/C13',
     'C03': 'relational (observational) equivalence of three I/O stacks incl. libc/mmap; not expressible as contracts on single functions with CBMC',
@@ -26,7 +36,7 @@ NA = {
     'C07': 'CBMC contract machinery is sequential (OpenMP pragmas dropped, no schedule quantifier)',
 }
 
-PENDING = ['C02', 'C04', 'C09', 'C10', 'C11', 'C12', 'C13', 'C14', 'C15', 'C16', 'C17', 'C18', 'C19', 'C20']
+PENDING = ['C02', 'C04', 'C09', 'C10', 'C11', 'C12', 'C13', 'C14', 'C15', 'C16', 'C17', 'C18', 'C19']
 
 
 def main():
